@@ -198,25 +198,26 @@ def run(tier, seed, which="C07"):
     V = kv.Verdict("C07", tier, seed)
     wd = kv.workdir("c07")
     rng = random.Random(seed)
-    r = kv.run_tlc("MC_Scoring", "MC_Scoring_q.cfg" if tier == "quick" else "MC_Scoring_t.cfg", wd, workers=8, timeout=3000, heap="6g")
-    V.add_tlc(r)
-    rh = kv.run_tlc("MC_Hirschberg", "MC_Hirschberg_ok.cfg", wd, workers=4, timeout=900)
-    V.add_tlc(rh)
-    if not rh.ok:
-        raise kv.Broken("MC_Hirschberg fails: %s" % rh.errors[:2])
-    if kv.run_tlc("MC_Hirschberg", "MC_Hirschberg_twin.cfg", wd, workers=4, timeout=900).ok:
-        raise kv.Broken("MC_Hirschberg twin not rejected")
-    if not r.ok:
-        raise kv.Broken("MC_Scoring: fold DP disagrees with brute force: %s" % r.out[-600:])
-    # C07 on the model: the constructive kernel + recursion returns every certified unique optimum (exhaustive, small);
-    # the twin with the pre-24dd196 meetup rule must be rejected
-    for cfg in (["MC_Kernel_q.cfg"] if tier == "quick" else ["MC_Kernel_q.cfg", "MC_Kernel_t5.cfg"]):
-        rk = kv.run_tlc("MC_Kernel", cfg, wd, workers=16, timeout=3000, heap="8g")
-        V.add_tlc(rk)
-        if not rk.ok:
-            raise kv.Broken("MC_Kernel %s: the kernel model does not return a certified optimum / malformed path: %s" % (cfg, rk.out[-400:]))
-    if kv.run_tlc("MC_Kernel", "MC_Kernel_twin.cfg", wd, workers=16, timeout=900, heap="8g").ok:
-        raise kv.Broken("MC_Kernel twin (pinned meetup rule) not rejected")
+    # model checking (each with a twin that must be rejected), run beside the traced executions:
+    #  MC_Scoring     the fold DPs of the certificate agree with brute force
+    #  MC_Hirschberg  every choice the meetup can return leads to a well-formed path
+    #  MC_Kernel      C07 on the model: kernel + recursion return every certified unique optimum (twin: pre-24dd196 meetup rule)
+    #  MC_Progressive the generalised kernel equals Kernel on sequences, merges copies flat, returns the certified optimum for groups
+    q = tier == "quick"
+    mcs = [("MC_Scoring", "MC_Scoring_q.cfg" if q else "MC_Scoring_t.cfg", True, 6), ("MC_Hirschberg", "MC_Hirschberg_ok.cfg", True, 4),
+           ("MC_Hirschberg", "MC_Hirschberg_twin.cfg", False, 4), ("MC_Kernel", "MC_Kernel_q.cfg", True, 8), ("MC_Kernel", "MC_Kernel_twin.cfg", False, 8),
+           ("MC_Progressive", "MC_Progressive_q.cfg" if q else "MC_Progressive_t.cfg", True, 8), ("MC_Progressive", "MC_Progressive_twin.cfg", False, 8)]
+    if not q:
+        mcs.append(("MC_Kernel", "MC_Kernel_t5.cfg", True, 12))
+    from concurrent.futures import ThreadPoolExecutor
+    mcpool = ThreadPoolExecutor(3)
+
+    def mc(job):
+        mod, cfg, expect, w = job
+        mwd = os.path.join(wd, "mc_" + cfg.replace(".cfg", ""))
+        os.makedirs(mwd, exist_ok=True)
+        return job, kv.run_tlc(mod, cfg, mwd, workers=w, timeout=3400, heap="8g")
+    mcfut = [mcpool.submit(mc, j) for j in mcs]
     C = cases(rng, tier)
     # batches balanced by DP cost
     C.sort(key=lambda c: -len(c["a"]) * len(c["b"]))
@@ -306,6 +307,15 @@ def run(tier, seed, which="C07"):
             V.violation("batch %d: harness rc=%s accepted=%s %s" % (bi, rc, res.accepted, err[-300:].replace("\n", " ")), tp, dict(kind="unexplained"))
         else:
             V.traces += len(batches[bi]) - len(skipped)
+    # whole progressive alignments (profile x sequence, profile x profile merges) walked through GKernel / Profile
+    import prog
+    prog.run(V, wd, random.Random(seed * 7919 + 13), tier)
+    for fu in mcfut:
+        (mod, cfg, expect, w), res = fu.result()
+        if expect:
+            V.add_tlc(res)
+        if res.ok != expect:
+            raise kv.Broken("%s %s: %s" % (mod, cfg, "fails: " + res.out[-500:] if expect else "the broken twin is not rejected"))
     c0 = C[-1]
     V.sample(dict(a=c0["a"], b=c0["b"], planted_path=c0["p"], type=c0["type"], copies=[c0["ka"], c0["kb"]]))
     return V.finish(rule="planted alignments: base sequence, substitutions, 1-3 internal indels of length 1..30 or terminal overhangs on any side, DNA and protein, all five types and the default, "
